@@ -98,6 +98,14 @@ def gather(with_tf=True):
             k = kind_of(d)
         mk = (lambda d: lambda: np.zeros(2, dtype=d))(d)
         rows.append(dict(canon=d.name if k != "bool" else "bool", kind=k, backend="numpy", alias=d.type.__name__, make=mk))
+    # the same dtypes in the other byte order (arrays read from files, network buffers): same `dtype.type`, same `dtype.name`,
+    # another `str(dtype)` ('>f4')
+    for d in np_dtypes:
+        k = kind_of(d)
+        if k in ("int", "uint", "float", "complex") and d.itemsize > 1 and d.kind in "iufc":
+            sd = d.newbyteorder("S")
+            if sd.byteorder in ("<", ">") and sd != d:
+                rows.append(dict(canon=d.name, kind=k, backend="numpy-swapped", alias=d.type.__name__, make=(lambda sd: lambda: np.zeros(2, dtype=sd))(sd)))
     # structured dtypes
     for fields in ([("first", np.uint8), ("second", np.int8)], [("x", np.float32)]):
         d = np.dtype(fields)
